@@ -60,7 +60,7 @@ def _save_originals():
 
 
 class SimRNG:
-    def __init__(self, seed, fault=None, budget_calls=20000, budget_elems=int(5e7),
+    def __init__(self, seed, fault=None, budget_calls=3000, budget_elems=int(5e7),
                  keep_log=64):
         _save_originals()
         self.seed = int(seed)
